@@ -12,6 +12,7 @@ import datetime
 from enum import Enum
 from copy import deepcopy
 from math import isclose as is_close
+from cmath import isclose as complex_is_close
 from typing import List, Dict, Callable, Union, Any, Pattern, Tuple, Optional, Set, FrozenSet, TYPE_CHECKING, Protocol
 from collections.abc import Mapping, Iterable, Sequence
 from collections import defaultdict
@@ -27,7 +28,7 @@ from deepdiff.helper import (strings, bytes_type, numbers, uuids, ListItemRemove
                              np_ndarray, np_floating, get_numpy_ndarray_rows, RepeatedTimer,
                              TEXT_VIEW, TREE_VIEW, DELTA_VIEW, detailed__dict__, add_root_to_paths,
                              np, get_truncate_datetime, dict_, CannotCompare, ENUM_INCLUDE_KEYS,
-                             PydanticBaseModel, Opcode, SetOrdered, ipranges)
+                             PydanticBaseModel, Opcode, SetOrdered, ipranges, only_complex_number)
 from deepdiff.serialization import SerializationMixin
 from deepdiff.distance import DistanceMixin, logarithmic_similarity
 from deepdiff.model import (
@@ -1498,7 +1499,9 @@ class DeepDiff(ResultDict, SerializationMixin, DistanceMixin, DeepDiffProtocol, 
             if not logarithmic_similarity(level.t1, level.t2, threshold=self.log_scale_similarity_threshold):
                 self._report_result('values_changed', level, local_tree=local_tree)
         elif self.math_epsilon is not None:
-            if not is_close(level.t1, level.t2, abs_tol=self.math_epsilon):
+            # math.isclose does not take complex numbers
+            close = complex_is_close if isinstance(level.t1, only_complex_number) or isinstance(level.t2, only_complex_number) else is_close
+            if not close(level.t1, level.t2, abs_tol=self.math_epsilon):
                 self._report_result('values_changed', level, local_tree=local_tree)
         elif self.significant_digits is None:
             if level.t1 != level.t2:
